@@ -2,7 +2,7 @@
 """Prints a markdown table of the seeded changes under /verif/seeded (for DESIGN.md)."""
 import json, glob, os, re
 rows = []
-for d in sorted(glob.glob('/verif/seeded/*/')):
+for d in sorted(glob.glob('/verif/seeded/C*/')):
     m = json.load(open(d + 'meta.json'))
     name = os.path.basename(d.rstrip('/'))
     summ = re.sub(r'\s+', ' ', m.get('summary', ''))
